@@ -79,9 +79,40 @@ def _worker_init(modname):
         _MOD.worker_init()
 
 
+_HANGS = 0
+
+
+class _CaseTimeout(BaseException):
+    pass
+
+
+def _on_case_alarm(signum, frame):
+    raise _CaseTimeout()
+
+
 def _worker_run(case):
+    # Opt-in per-case wall-clock watchdog (module attribute CASE_TIMEOUT, seconds): a change to the code under test that
+    # makes ONE case spin forever must end as a verdict about that case (with the case as replay), not as a global
+    # time-out of the whole check (exit 2). Only armed in pool workers (the main process owns SIGALRM for the run budget);
+    # the timer repeats every 5 s in case an adapter swallows the first exception. Modules with their own SIGALRM use
+    # (C07, C08, C09) do not opt in.
+    global _HANGS
+    limit = getattr(_MOD, "CASE_TIMEOUT", None)
+    if limit and _HANGS >= 2:  # this worker has already seen two hangs: do not spend the full limit on every further one
+        limit = min(limit, 3)
+    armed = bool(limit) and multiprocessing.current_process().name != "MainProcess"
+    if armed:
+        signal.signal(signal.SIGALRM, _on_case_alarm)
+        signal.setitimer(signal.ITIMER_REAL, float(limit), 5.0)
     try:
-        return _MOD.run_impl(case)
+        try:
+            return _MOD.run_impl(case)
+        finally:
+            if armed:
+                signal.setitimer(signal.ITIMER_REAL, 0)
+    except _CaseTimeout:
+        _HANGS += 1
+        return {"_hang": f"the implementation did not return within {limit} s of wall-clock time on this case"}
     except TieBroken as e:  # the source no longer has the shape the adapter relies on: a broken tie, not a crash
         return {"_tie_broken": str(e)}
     except BaseException as e:  # adapter bug or an exception class the adapter does not expect
@@ -106,7 +137,7 @@ def evaluate(mod, cases, procs, with_model=True):
     reqs, spans = [], []
     for c, o in zip(cases, obs):
         rs = []
-        if with_model and "_adapter_crash" not in o and "_tie_broken" not in o:
+        if with_model and "_adapter_crash" not in o and "_tie_broken" not in o and "_hang" not in o:
             try:
                 rs = mod.model_requests(c, o) or []
             except Exception as e:  # noqa
@@ -117,7 +148,9 @@ def evaluate(mod, cases, procs, with_model=True):
     mouts = run_driver(reqs) if reqs else []
     for (c, o), (start, n) in zip(zip(cases, obs), spans):
         rec = {"case": c, "obs": o, "oracle": None, "corr": None}
-        if "_adapter_crash" in o:
+        if "_hang" in o:
+            rec["oracle"] = "hang: " + o["_hang"]
+        elif "_adapter_crash" in o:
             rec["oracle"] = "implementation raised through the adapter: " + o["_adapter_crash"]
         elif "_tie_broken" in o:
             rec["corr"] = "tie broken in the adapter: " + o["_tie_broken"]
@@ -135,6 +168,8 @@ def evaluate(mod, cases, procs, with_model=True):
 def shrink(mod, rec, kind, procs, budget=400):
     """Greedy delta-debugging driven by mod.shrink; keeps a case on which `kind` still fails."""
     if not hasattr(mod, "shrink"):
+        return rec
+    if str(rec.get(kind) or "").startswith("hang:"):  # candidates are evaluated in this process, without the per-case watchdog
         return rec
     best = rec
     tried = 0
@@ -261,7 +296,7 @@ def main(argv=None):
             if gi < 2 or (len(corpus) <= gi < len(corpus) + 3) or (len(sample_recs) < 8 and gi % max(1, len(cases) // 6) == 0):
                 sample_recs.append(r)
             o = r["obs"]
-            if "_adapter_crash" not in o and "_tie_broken" not in o:
+            if "_adapter_crash" not in o and "_tie_broken" not in o and "_hang" not in o:
                 try:
                     for t in mod.tags(r["case"], o):
                         tags[t] += 1
